@@ -29,6 +29,10 @@ double __CPROVER_uninterpreted_log(double);
 static inline vec_double vec_double_default(void) { vec_double v; v.data = 0; v.size = 0; v.cap = 0; v.wf = 0; return v; }
 static inline size_t vec_double_size(const vec_double *v) { return v->size; }
 
+static inline _Bool vec_double_empty(const vec_double *v) { return v->size == 0; }
+static inline double *vec_double_at(vec_double *v, size_t i);
+static inline double *vec_double_back(vec_double *v) { return vec_double_at(v, v->size - 1); }
+static inline double *vec_double_front(vec_double *v) { return vec_double_at(v, 0); }
 static inline double *vec_double_at(vec_double *v, size_t i)
 {
   __CPROVER_assert(i < v->size, "[C06][C18][safety] vector::at index in range (would throw std::out_of_range)");
